@@ -212,6 +212,9 @@ class C14(Prop):
             return "Addresses::len / is_empty / u16::from(family) wrong"
         if int(b["vc"]) != x[12] or int(b["fp"]) != x[13]:
             return "version|command or protocol|family do not reproduce the control bytes"
+        want_disp = "[13, 10, 13, 10, 0, 13, 10, 81, 85, 73, 84, 10] %#X %#X (%d bytes)" % (x[12], x[13], length)
+        if un(b["disp"]) != want_disp.replace("0X", "0x").encode():
+            return "Display prints %r, expected %r" % (un(b["disp"]), want_disp)
         if int(b["tl"]) != (len(tb) if tb is not None else int(b["tl"])) % 65536 or b["te"] != ("1" if b["tb"] == "-" else "0"):
             return "TypeLengthValues::len / is_empty wrong"
         # fields are the big-endian decoding of the address view
